@@ -127,6 +127,16 @@
 	#define HFSM2_BREAK_AVAILABLE()										   false
 #endif
 
+#ifdef HFSM2_VERIF // verification hook: route breaks to an external handler
+	#undef  HFSM2_BREAK
+	#undef  HFSM2_BREAK_AVAILABLE
+	extern "C" void hfsm2_verif_break (const char* file, int line);
+	extern "C" void hfsm2_verif_assert(const char* expr, const char* file, int line);
+	namespace hfsm2_verif { struct Probe; }
+	#define HFSM2_BREAK()				  ::hfsm2_verif_break(__FILE__, __LINE__)
+	#define HFSM2_BREAK_AVAILABLE()											true
+#endif
+
 #ifdef _DEBUG
 	#define HFSM2_IF_DEBUG(...)										 __VA_ARGS__
 	#define HFSM2_UNLESS_DEBUG(...)
@@ -149,6 +159,13 @@
 	#define HFSM2_CHECKED(x)												   x
 	#define HFSM2_ASSERT(x)											  ((void) 0)
 	#define HFSM2_ASSERT_OR(y, n)											   n
+#endif
+
+#if defined HFSM2_VERIF && defined HFSM2_ENABLE_ASSERT // verification hook: report the failed expression
+	#undef  HFSM2_CHECKED
+	#undef  HFSM2_ASSERT
+	#define HFSM2_CHECKED(x)  (!!(x) || (::hfsm2_verif_assert(#x, __FILE__, __LINE__), 0))
+	#define HFSM2_ASSERT(x)	  (!!(x) || (::hfsm2_verif_assert(#x, __FILE__, __LINE__), 0))
 #endif
 
 #if defined _MSC_VER || defined __clang_major__ && __clang_major__ >= 7
@@ -2944,6 +2961,10 @@ public:
 
 private:
 	HFSM2_IF_ASSERT(void verifyStructure(const Index occupied = INVALID)  const noexcept);
+
+#ifdef HFSM2_VERIF // verification hook: read-only probe
+	friend struct ::hfsm2_verif::Probe;
+#endif
 
 private:
 	Index _vacantHead = 0;
@@ -14755,6 +14776,10 @@ template <
   , typename TApex
 >
 class R_ {
+#ifdef HFSM2_VERIF // verification hook: read-only probe
+	friend struct ::hfsm2_verif::Probe;
+#endif
+
 public:
 	static constexpr FeatureTag FEATURE_TAG = TConfig::FEATURE_TAG;
 
